@@ -243,3 +243,35 @@ def check_candbbox(ctx, m, cfg, rule="R-SIB"):
                     ctx.violation(rule, "candbbox:%s:stored" % c.src_fn, "%s stores, next to a candidate polygon, a bounding box other than the one its loop was just tested with; "
                                   "the later containment counts use a box of another polygon" % c.src_fn, bs[0].where(), inst)
     return n
+
+
+# ---------------------------------------------------------------------------------------------------------------
+# R-SIB passthrough: arrays and their length travel together.  A helper that forwards its candidate arrays to a sub-helper forwards
+# its own element count with them (counting containers among the first i candidates only picks the wrong parent polygon).
+PASSTHROUGH = [("findDeepestContainer", "countContainers", {1: "polygons", 2: "bboxes", 3: "polygonCount"})]
+
+
+def check_passthrough(ctx, m, cfg, rule="R-SIB"):
+    n = 0
+    for caller, callee, binding in PASSTHROUGH:
+        f = m.fn(caller)
+        calls = [i for i in f.all_insts() if i.op == "call" and i.callee == callee]
+        if not calls:
+            raise AnalysisBroken("%s no longer calls %s" % (caller, callee))
+        for c in calls:
+            n += 1
+            inst = {"caller": caller, "callee": callee, "at": c.where(), "config": cfg}
+            bad = None
+            for k, pname in binding.items():
+                pk = f.arg_index(pname)
+                if pk is None:
+                    raise AnalysisBroken("%s: parameter %s not found" % (caller, pname))
+                if _strip(f, c.ops[k]) != ["a", pk]:
+                    bad = (k, pname)
+                    break
+            if bad:
+                ctx.violation(rule, "passthrough:%s:%s:%s" % (caller, callee, bad[1]), "%s passes something other than its own parameter '%s' as argument %d of %s: the candidate arrays and their "
+                              "length must be forwarded together (otherwise only part of the candidates is considered)" % (caller, bad[1], bad[0] + 1, callee), c.where(), inst)
+            else:
+                ctx.ok(rule, inst, "the arrays and their element count are forwarded unchanged")
+    return n
